@@ -15,6 +15,7 @@ type Mutex struct {
 	waiters []*Thread
 }
 
+//go:norace
 func (m *Mutex) fresh(r *Runtime) {
 	if m.epoch != r.epoch {
 		m.epoch = r.epoch
@@ -25,6 +26,7 @@ func (m *Mutex) fresh(r *Runtime) {
 	}
 }
 
+//go:norace
 func (m *Mutex) Lock() {
 	r := rt
 	if r == nil {
@@ -49,6 +51,7 @@ func (m *Mutex) Lock() {
 	raceAcquire(m)
 }
 
+//go:norace
 func (m *Mutex) TryLock() bool {
 	r := rt
 	if r == nil {
@@ -74,6 +77,7 @@ func (m *Mutex) TryLock() bool {
 	return true
 }
 
+//go:norace
 func (m *Mutex) Unlock() {
 	r := rt
 	if r == nil {
@@ -115,12 +119,14 @@ type RWMutex struct {
 	rsync    byte
 }
 
+//go:norace
 func (m *RWMutex) fresh(r *Runtime) {
 	if m.epoch != r.epoch {
 		*m = RWMutex{epoch: r.epoch}
 	}
 }
 
+//go:norace
 func (m *RWMutex) wakeAll(r *Runtime) {
 	for _, w := range m.waiters {
 		r.ready(w)
@@ -128,6 +134,7 @@ func (m *RWMutex) wakeAll(r *Runtime) {
 	m.waiters = m.waiters[:0]
 }
 
+//go:norace
 func (m *RWMutex) Lock() {
 	r := rt
 	if r == nil {
@@ -151,6 +158,7 @@ func (m *RWMutex) Lock() {
 	raceAcquire(&m.rsync)
 }
 
+//go:norace
 func (m *RWMutex) Unlock() {
 	r := rt
 	if r == nil {
@@ -170,6 +178,7 @@ func (m *RWMutex) Unlock() {
 	m.wakeAll(r)
 }
 
+//go:norace
 func (m *RWMutex) RLock() {
 	r := rt
 	if r == nil {
@@ -190,6 +199,7 @@ func (m *RWMutex) RLock() {
 	raceAcquire(m)
 }
 
+//go:norace
 func (m *RWMutex) RUnlock() {
 	r := rt
 	if r == nil {
@@ -211,6 +221,7 @@ func (m *RWMutex) RUnlock() {
 	}
 }
 
+//go:norace
 func (m *RWMutex) TryLock() bool {
 	r := rt
 	if r == nil || r.aborting {
@@ -229,6 +240,7 @@ func (m *RWMutex) TryLock() bool {
 	return true
 }
 
+//go:norace
 func (m *RWMutex) TryRLock() bool {
 	r := rt
 	if r == nil || r.aborting {
@@ -246,11 +258,15 @@ func (m *RWMutex) TryRLock() bool {
 	return true
 }
 
+//go:norace
 func (m *RWMutex) RLocker() Locker { return (*rlocker)(m) }
 
 type rlocker RWMutex
 
-func (r *rlocker) Lock()   { (*RWMutex)(r).RLock() }
+//go:norace
+func (r *rlocker) Lock() { (*RWMutex)(r).RLock() }
+
+//go:norace
 func (r *rlocker) Unlock() { (*RWMutex)(r).RUnlock() }
 
 // Once is the drop-in for sync.Once.
@@ -261,6 +277,7 @@ type Once struct {
 	waiters []*Thread
 }
 
+//go:norace
 func (o *Once) Do(f func()) {
 	r := rt
 	if r == nil {
@@ -311,6 +328,7 @@ type WaitGroup struct {
 	waiters []*Thread
 }
 
+//go:norace
 func (wg *WaitGroup) Add(delta int) {
 	r := rt
 	if r != nil && !r.aborting {
@@ -332,8 +350,10 @@ func (wg *WaitGroup) Add(delta int) {
 	}
 }
 
+//go:norace
 func (wg *WaitGroup) Done() { wg.Add(-1) }
 
+//go:norace
 func (wg *WaitGroup) Wait() {
 	r := rt
 	if r == nil || r.aborting {
@@ -348,6 +368,7 @@ func (wg *WaitGroup) Wait() {
 	raceAcquire(wg)
 }
 
+//go:norace
 func (wg *WaitGroup) Go(f func()) {
 	wg.Add(1)
 	Go("wg.Go", func() {
@@ -363,8 +384,10 @@ type Cond struct {
 	waiters []*Thread
 }
 
+//go:norace
 func NewCond(l Locker) *Cond { return &Cond{L: l} }
 
+//go:norace
 func (c *Cond) Wait() {
 	r := rt
 	if r == nil || r.aborting {
@@ -378,6 +401,7 @@ func (c *Cond) Wait() {
 	c.L.Lock()
 }
 
+//go:norace
 func (c *Cond) Signal() {
 	r := rt
 	if r == nil || r.aborting {
@@ -393,6 +417,7 @@ func (c *Cond) Signal() {
 	}
 }
 
+//go:norace
 func (c *Cond) Broadcast() {
 	r := rt
 	if r == nil || r.aborting {
@@ -423,9 +448,10 @@ const (
 var (
 	poolMode    PoolMode
 	poolEpoch   uint64
-	poolState   map[*byte]*bufState
+	poolState   ptab[*bufState]
 	poolStats   PoolStats
 	poolAllList []*bufState
+	poolInit    bool
 )
 
 type bufState struct {
@@ -443,16 +469,22 @@ type PoolStats struct {
 const poison = 0xDB
 
 // SetPoolMode selects the mode (call at the beginning of an execution).
+//
+//go:norace
 func SetPoolMode(m PoolMode) { poolMode = m }
 
 // GetPoolStats returns the statistics of the current execution.
+//
+//go:norace
 func GetPoolStats() PoolStats { return poolStats }
 
+//go:norace
 func poolFresh() {
 	e := Epoch()
-	if poolEpoch != e || poolState == nil {
+	if poolEpoch != e || !poolInit {
 		poolEpoch = e
-		poolState = make(map[*byte]*bufState)
+		poolInit = true
+		poolState.reset()
 		poolStats = PoolStats{}
 		poolAllList = poolAllList[:0]
 	}
@@ -467,6 +499,7 @@ type Pool struct {
 	bcap  int
 }
 
+//go:norace
 func bufKey(b []byte) *byte {
 	if cap(b) == 0 {
 		return nil
@@ -474,6 +507,7 @@ func bufKey(b []byte) *byte {
 	return unsafe.SliceData(b)
 }
 
+//go:norace
 func (p *Pool) fresh() {
 	if e := Epoch(); p.epoch != e {
 		p.epoch = e
@@ -486,6 +520,7 @@ func (p *Pool) fresh() {
 	}
 }
 
+//go:norace
 func (p *Pool) Get() any {
 	p.fresh()
 	poolFresh()
@@ -497,7 +532,7 @@ func (p *Pool) Get() any {
 		if b, ok := x.([]byte); ok && cap(b) > 0 {
 			k := bufKey(b)
 			raceAcquire(k)
-			if st := poolState[k]; st != nil {
+			if st, _ := poolState.get(uintptr(unsafe.Pointer(k))); st != nil {
 				if poolMode == PoolEager {
 					full := b[:cap(b)]
 					for i, c := range full {
@@ -522,13 +557,14 @@ func (p *Pool) Get() any {
 			p.bcap = cap(b)
 		}
 		st := &bufState{b: b[:cap(b)], pool: p}
-		poolState[bufKey(b)] = st
+		poolState.put(uintptr(unsafe.Pointer(bufKey(b))), st)
 		poolAllList = append(poolAllList, st)
 		poolStats.Outstanding++
 	}
 	return x
 }
 
+//go:norace
 func (p *Pool) Put(x any) {
 	p.fresh()
 	poolFresh()
@@ -538,7 +574,7 @@ func (p *Pool) Put(x any) {
 	}
 	if b, ok := x.([]byte); ok && cap(b) > 0 && Active() {
 		k := bufKey(b)
-		st := poolState[k]
+		st, _ := poolState.get(uintptr(unsafe.Pointer(k)))
 		if st == nil {
 			// a buffer the pool did not hand out: admitted only if it has the pool's buffer size
 			if p.bcap == 0 && p.New != nil {
@@ -550,7 +586,7 @@ func (p *Pool) Put(x any) {
 				Fail("pool: foreign buffer admitted (cap %d, pool buffers have cap %d)", cap(b), p.bcap)
 			}
 			st = &bufState{b: b[:cap(b)], pool: p}
-			poolState[k] = st
+			poolState.put(uintptr(unsafe.Pointer(k)), st)
 			poolAllList = append(poolAllList, st)
 			poolStats.Outstanding++
 		}
@@ -578,6 +614,8 @@ func (p *Pool) Put(x any) {
 
 // PoolVerify checks that every recycled buffer still holds the poison pattern (write-after-recycle).
 // It returns a description of the first problem, or "".
+//
+//go:norace
 func PoolVerify() string {
 	poolFresh()
 	if poolMode == PoolPlain {
